@@ -13,7 +13,7 @@ Used by the property scripts of C07 (and the spmc parts of C03 C04 C05 C09):
 """
 import os
 import random
-from vlib import VERIF
+from vlib import VERIF, CHAN_RUSTFLAGS
 
 MODULE = "Fv.Props.SpmcB"
 THEOREMS = [l.strip() for l in open(os.path.join(VERIF, "props", "spmcb.theorems")) if l.strip() and not l.startswith("#")]
@@ -101,7 +101,7 @@ P 2 recv r0 ; recv r0
 
 def tie(ctx):
     drv = ctx.lean_exe("fvdrv_spmcb")
-    h = ctx.cargo_build("chan", "chanh", rustflags="--cfg loom")
+    h = ctx.cargo_build("chan", "chanh", rustflags=CHAN_RUSTFLAGS)
     ctx.assumptions += [a for a in ASSUMPTIONS if a not in ctx.assumptions]
     if ctx.replay:
         return [ctx.tie("spmcb-replay", _cmd(h, "run", ctx.replay, "--atomics"), [drv])]
